@@ -9,6 +9,7 @@ import (
 	"net"
 	"os"
 	"path/filepath"
+	"slices"
 	"strconv"
 	"strings"
 	"sync"
@@ -103,11 +104,53 @@ type readDone struct {
 	mismatch string
 }
 
+// content is what one direction of a connection carries: an optional fixed prefix (a visitor's
+// HTTP request / ClientHello start) followed by bytes that are a pure function of (seed, offset).
+type content struct {
+	seed   uint64
+	prefix []byte
+}
+
+func (s content) fill(off int64, b []byte) {
+	n := 0
+	if off < int64(len(s.prefix)) {
+		n = copy(b, s.prefix[off:])
+	}
+	if n < len(b) {
+		tcpsvc.Fill(s.seed, off+int64(n)-int64(len(s.prefix)), b[n:])
+	}
+}
+
+// check returns the index of the first byte of b that is not the content at off, or -1.
+func (s content) check(off int64, b []byte) int {
+	n := 0
+	if off < int64(len(s.prefix)) {
+		pre := s.prefix[off:]
+		for n < len(b) && n < len(pre) {
+			if b[n] != pre[n] {
+				return n
+			}
+			n++
+		}
+	}
+	if n < len(b) {
+		if i := tcpsvc.Check(s.seed, off+int64(n)-int64(len(s.prefix)), b[n:]); i >= 0 {
+			return n + i
+		}
+	}
+	return -1
+}
+
+func (p connPlan) upContent() content {
+	return content{seed: p.UpSeed, prefix: visitorPrefix(p.Visitor)}
+}
+func (p connPlan) downContent() content { return content{seed: p.DownSeed} }
+
 // reader consumes everything from c, checking the content against (seed, offset). first is
 // closed when the first byte arrives. The bound is an idle bound: every Read may take at most
 // idle (progress re-arms it), so large transfers on a busy machine are not mistaken for hangs.
 // The drawn (possibly tiny) buffer size is used for the first 8 KiB, where the boundaries are.
-func reader(c net.Conn, seed uint64, bufSize int, idle time.Duration, first chan<- struct{}, progress *atomic.Int64) <-chan readDone {
+func reader(c net.Conn, seed content, bufSize int, idle time.Duration, first chan<- struct{}, progress *atomic.Int64) <-chan readDone {
 	ch := make(chan readDone, 1)
 	go func() {
 		buf := make([]byte, bufSize)
@@ -124,7 +167,7 @@ func reader(c net.Conn, seed uint64, bufSize int, idle time.Duration, first chan
 					first = nil
 				}
 				if d.mismatch == "" {
-					if i := tcpsvc.Check(seed, d.n, buf[:n]); i >= 0 {
+					if i := seed.check(d.n, buf[:n]); i >= 0 {
 						d.mismatch = fmt.Sprintf("byte at stream offset %d is wrong (got %#02x)", d.n+int64(i), buf[i])
 					}
 				}
@@ -145,13 +188,13 @@ func reader(c net.Conn, seed uint64, bufSize int, idle time.Duration, first chan
 	return ch
 }
 
-func writeChunks(c net.Conn, seed uint64, off *int64, chunks []int, idle time.Duration) error {
+func writeChunks(c net.Conn, seed content, off *int64, chunks []int, idle time.Duration) error {
 	for _, n := range chunks {
 		if n == 0 {
 			continue
 		}
 		b := make([]byte, n)
-		tcpsvc.Fill(seed, *off, b)
+		seed.fill(*off, b)
 		c.SetWriteDeadline(time.Now().Add(idle))
 		if _, err := c.Write(b); err != nil {
 			return err
@@ -159,6 +202,21 @@ func writeChunks(c net.Conn, seed uint64, off *int64, chunks []int, idle time.Du
 		*off += int64(n)
 	}
 	return nil
+}
+
+// writeFirst writes the client's first segment: at once, or (visitors) dribbled in two pieces.
+func writeFirst(c net.Conn, p connPlan, off *int64, idle time.Duration) error {
+	if p.FirstLen == 0 {
+		return nil
+	}
+	if p.Dribble > 0 && p.Dribble < p.FirstLen {
+		if err := writeChunks(c, p.upContent(), off, []int{p.Dribble}, idle); err != nil {
+			return err
+		}
+		time.Sleep(time.Duration(p.DribbleGapMs) * time.Millisecond)
+		return writeChunks(c, p.upContent(), off, []int{p.FirstLen - p.Dribble}, idle)
+	}
+	return writeChunks(c, p.upContent(), off, []int{p.FirstLen}, idle)
 }
 
 // waitFor polls cond until it holds, the bound expires or stop is closed.
@@ -283,7 +341,7 @@ func runCase(c casePlan, workDir string) (res caseResult) {
 	backAddr := ""
 	if c.chained() {
 		var err error
-		back, err = tcpsvc.Start(backConfig(c), 1, true)
+		back, err = tcpsvc.StartWith(backConfig(c), 1, true, tcpsvc.Options{DebugLog: c.BackDebugLog})
 		if err != nil {
 			res.harnessErr = "start back instance: " + err.Error()
 			return
@@ -301,7 +359,7 @@ func runCase(c casePlan, workDir string) (res caseResult) {
 		defer os.Remove(upskPath)
 	}
 	names := frontNames(c)
-	front, err := tcpsvc.Start(frontConfig(c, taddrs, ports, backAddr, upskPath), len(names), true)
+	front, err := tcpsvc.StartWith(frontConfig(c, taddrs, ports, backAddr, upskPath), len(names), true, tcpsvc.Options{DebugLog: c.DebugLog})
 	if err != nil {
 		res.harnessErr = "start front instance: " + err.Error()
 		return
@@ -312,11 +370,7 @@ func runCase(c casePlan, workDir string) (res caseResult) {
 	var wg sync.WaitGroup
 	for i := range c.Conns {
 		wg.Go(func() {
-			name := names[0]
-			if c.Server == "direct" {
-				name = names[i]
-			}
-			runConn(c, i, front.TCPAddr[name], targets[i], &res.conns[i])
+			runConn(c, i, front.TCPAddr[frontServerOf(c, i)], targets[i], &res.conns[i])
 		})
 	}
 	wg.Wait()
@@ -387,6 +441,12 @@ func harnessClient(c casePlan, i int, frontAddr string, inner *captureClient) (d
 	if err != nil {
 		return nil, err
 	}
+	if c.isVisitor(i) {
+		// not a Shadowsocks client: a plain TCP connection to the ss2022 server's port
+		return func(ctx context.Context, _ conn.Addr, _ []byte) (netio.Conn, error) {
+			return inner.DialStream(ctx, fa, nil)
+		}, nil
+	}
 	switch c.Server {
 	case "direct":
 		return func(ctx context.Context, _ conn.Addr, payload []byte) (netio.Conn, error) {
@@ -402,6 +462,9 @@ func harnessClient(c casePlan, i int, frontAddr string, inner *captureClient) (d
 		hcc := httpproxy.ClientConfig{Name: "harness", InnerClient: inner, Addr: fa}
 		if c.Auth {
 			hcc.Username, hcc.Password, hcc.UseBasicAuth = userName(i), userPass(i), true
+		}
+		if c.TLS {
+			hcc.UseTLS, hcc.ServerName, hcc.RootCAs = true, frontTLSName, tlsFiles.ca.Pool()
 		}
 		pc, err := hcc.NewProxyClient()
 		if err != nil {
@@ -479,6 +542,42 @@ func runConn(c casePlan, i int, frontAddr string, tg target, r *connResult) {
 	if c.waitApplies() {
 		r.labels = append(r.labels, "wait-applies")
 	}
+	vis := c.isVisitor(i)
+	if c.Server == "http" && c.TLS {
+		r.labels = append(r.labels, "server:http+tls")
+	}
+	if c.Client == "http" && c.ChainTLS {
+		r.labels = append(r.labels, "client:http+tls")
+		if c.ChainServerName {
+			r.labels = append(r.labels, "client-tls:server-name-configured")
+		} else {
+			r.labels = append(r.labels, "client-tls:server-name-from-address")
+		}
+	}
+	if c.Server == "ss2022" && c.Fallback {
+		if vis {
+			r.labels = append(r.labels, "fallback-visitor")
+		} else {
+			r.labels = append(r.labels, "ss2022-client-on-fallback-server")
+		}
+	}
+	if c.Client != "fake" && c.Client != "group" {
+		if c.DebugLog {
+			r.labels = append(r.labels, "front-logger:debug")
+		} else {
+			r.labels = append(r.labels, "front-logger:info")
+		}
+		if c.chained() {
+			if c.BackDebugLog {
+				r.labels = append(r.labels, "back-logger:debug")
+			} else {
+				r.labels = append(r.labels, "back-logger:info")
+			}
+		}
+	}
+	// carried: the first bytes are handed to the client package's DialStream and travel with the
+	// handshake. A visitor has no handshake: "with the handshake" means right after connecting.
+	carried := p.FirstAt == faHandshake && !vis
 
 	sock := &captureClient{}
 	dial, err := harnessClient(c, i, frontAddr, sock)
@@ -536,7 +635,7 @@ func runConn(c casePlan, i int, frontAddr string, tg target, r *connResult) {
 			defer tc.Close()
 			out.accepted, out.acceptedAt = true, time.Now()
 			first := make(chan struct{})
-			rdc := reader(tc, p.UpSeed, p.ReadBuf, idle, first, &targetGot)
+			rdc := reader(tc, p.upContent(), p.ReadBuf, idle, first, &targetGot)
 			var rd readDone
 			gotRD := false
 			waitRD := func() {
@@ -552,7 +651,7 @@ func runConn(c casePlan, i int, frontAddr string, tg target, r *connResult) {
 				}
 			}
 			out.attempted = p.downTotal()
-			if err := writeChunks(tc, p.DownSeed, &out.wrote, p.Down, idle); err != nil && !(p.Mode == cmAbort && p.AbortBy == abClient && !isTimeout(err)) {
+			if err := writeChunks(tc, p.downContent(), &out.wrote, p.Down, idle); err != nil && !(p.Mode == cmAbort && p.AbortBy == abClient && !isTimeout(err)) {
 				// (when the client is the one that resets, the relay may already have torn the session down)
 				out.err, out.liveness = "target write: "+err.Error(), isTimeout(err)
 				waitRD()
@@ -575,7 +674,7 @@ func runConn(c casePlan, i int, frontAddr string, tg target, r *connResult) {
 				waitRD()
 				if rd.err == nil && rd.mismatch == "" && rd.n == wantTargetRead {
 					// the uplink ended cleanly: the opposite direction must still flow
-					if err := writeChunks(tc, p.DownSeed, &out.wrote, []int{p.Extra}, idle); err != nil {
+					if err := writeChunks(tc, p.downContent(), &out.wrote, []int{p.Extra}, idle); err != nil {
 						out.err, out.liveness = "target write after uplink EOF: "+err.Error(), isTimeout(err)
 					}
 				}
@@ -598,7 +697,7 @@ func runConn(c casePlan, i int, frontAddr string, tg target, r *connResult) {
 	defer cancel()
 	var payload0 []byte
 	var upOff int64
-	if p.FirstAt == faHandshake && p.FirstLen > 0 {
+	if carried && p.FirstLen > 0 {
 		payload0 = make([]byte, p.FirstLen)
 		tcpsvc.Fill(p.UpSeed, 0, payload0)
 		upOff = int64(p.FirstLen)
@@ -620,8 +719,8 @@ func runConn(c casePlan, i int, frontAddr string, tg target, r *connResult) {
 				r.fail(isTimeout(derr) || errors.Is(derr, context.DeadlineExceeded), "SIG=C13/no-failure-reply socks5 %s (%s): expected a failure reply, got error %v", targetKindNames[p.Target], exp.why, derr)
 				return
 			}
-			if exp.socks5Code != 0 && int(re) != exp.socks5Code {
-				r.fail(false, "SIG=C13/wrong-failure-reply socks5 %s (%s): REP=%d want %d", targetKindNames[p.Target], exp.why, int(re), exp.socks5Code)
+			if exp.socks5Codes != nil && !slices.Contains(exp.socks5Codes, int(re)) {
+				r.fail(false, "SIG=C13/wrong-failure-reply socks5 %s %s (%s): REP=%d, acceptable %v", targetKindNames[p.Target], errDesc(p), exp.why, int(re), exp.socks5Codes)
 				return
 			}
 			r.labels = append(r.labels, fmt.Sprintf("socks5-rep:%d", int(re)))
@@ -639,8 +738,14 @@ func runConn(c casePlan, i int, frontAddr string, tg target, r *connResult) {
 		}
 		r.labels = append(r.labels, "failure-reply")
 		if p.Target == tkFakeErrno {
-			r.labels = append(r.labels, "failed-dial-reported:"+p.Errno)
+			r.labels = append(r.labels, "failed-dial-reported:"+errClass(p.Errno))
+			if p.ErrWrap != "" {
+				r.labels = append(r.labels, "failed-dial-reported:"+errClass(p.Errno)+"/"+p.ErrWrap)
+			}
 			r.nt = true
+		}
+		if exp.rejected {
+			r.labels = append(r.labels, "router-rejection-reported")
 		}
 		return
 	}
@@ -680,13 +785,16 @@ func runConn(c casePlan, i int, frontAddr string, tg target, r *connResult) {
 		if exp.forcedReply && c.hasReply() {
 			r.labels = append(r.labels, "forced-success-reply")
 		}
-		rdc := reader(cc, p.DownSeed, p.ReadBuf, idle, nil, &clientGot)
+		if !c.hasReply() && !exp.forcedReply {
+			r.labels = append(r.labels, "failure-silent-close:"+c.Server)
+		}
+		rdc := reader(cc, p.downContent(), p.ReadBuf, idle, nil, &clientGot)
 		attempted := upOff
-		if p.FirstAt != faHandshake {
+		if !carried {
 			time.Sleep(time.Until(tReady.Add(firstDelay(c, p.FirstAt))))
 			if p.FirstLen > 0 {
-				attempted += int64(p.FirstLen)                                 // a failed Write may still have delivered a prefix
-				_ = writeChunks(cc, p.UpSeed, &upOff, []int{p.FirstLen}, idle) // may fail: the relay is allowed to be gone
+				attempted += int64(p.FirstLen)      // a failed Write may still have delivered a prefix
+				_ = writeFirst(cc, p, &upOff, idle) // may fail: the relay is allowed to be gone
 			}
 		}
 		rd := <-rdc
@@ -707,17 +815,41 @@ func runConn(c casePlan, i int, frontAddr string, tg target, r *connResult) {
 	}
 
 	where := fmt.Sprintf("%s>%s (tfo=%v wait=%v T=%s buf=%d) target %s first-at=%s", c.Server, c.Client, c.DialerTFO, c.waitApplies(), c.T(), c.bufSize(), targetKindNames[p.Target], firstAtNames[p.FirstAt])
+	if c.extraKey(p) != "" {
+		where += " [" + strings.TrimSpace(c.extraKey(p)) + "]"
+	}
+	if vis {
+		where += fmt.Sprintf(" (visitor of an ss2022 server with unsafeFallbackAddress = this target; header length %d, first segment %d bytes, dribble %d)", c.fallbackHeaderLen(), p.FirstLen, p.Dribble)
+	}
+	// visitorLabels: a visitor was relayed to the fallback destination
+	visitorLabels := func() {
+		if !vis {
+			return
+		}
+		r.nt = true
+		r.labels = append(r.labels, "fallback-visitor:relayed", "fallback-visitor:"+visitorNames[p.Visitor], "fallback-first-segment:"+c.firstSegmentClass(p))
+		if p.Dribble > 0 {
+			r.labels = append(r.labels, "fallback:first-segment-dribbled")
+		} else {
+			r.labels = append(r.labels, "fallback:first-segment-one-write")
+		}
+		if c.AllowSegmented {
+			r.labels = append(r.labels, "fallback:allow-segmented-header")
+		} else {
+			r.labels = append(r.labels, "fallback:header-judged-on-first-read")
+		}
+	}
 
 	// --- session ended by a reset
 	if p.Mode == cmAbort {
 		who := [...]string{"client", "target"}[p.AbortBy]
-		rdc := reader(cc, p.DownSeed, p.ReadBuf, idle, nil, &clientGot)
+		rdc := reader(cc, p.downContent(), p.ReadBuf, idle, nil, &clientGot)
 		attempted := upOff
 		var werr error
-		if p.FirstAt != faHandshake {
+		if !carried {
 			time.Sleep(time.Until(tReady.Add(firstDelay(c, p.FirstAt))))
 			attempted += int64(p.FirstLen)
-			werr = writeChunks(cc, p.UpSeed, &upOff, []int{p.FirstLen}, idle)
+			werr = writeFirst(cc, p, &upOff, idle)
 		}
 		if werr == nil && p.RestAt != raBehind && len(p.UpRest) > 0 {
 			time.Sleep(time.Until(tReady.Add(restDelay(c, p.RestAt)))) // idle-open until the wait deadline has long passed
@@ -727,7 +859,7 @@ func runConn(c casePlan, i int, frontAddr string, tg target, r *connResult) {
 				break
 			}
 			attempted += int64(n)
-			werr = writeChunks(cc, p.UpSeed, &upOff, []int{n}, idle)
+			werr = writeChunks(cc, p.upContent(), &upOff, []int{n}, idle)
 		}
 		clientWaitFailed := false
 		if p.AbortBy == abClient {
@@ -812,11 +944,12 @@ func runConn(c casePlan, i int, frontAddr string, tg target, r *connResult) {
 		if r.up < r.upMax || r.down < r.downMax {
 			r.labels = append(r.labels, "reset:bytes-died-in-flight")
 		}
-		if c.Auth && hasUsers(c.Server) {
+		if _, ok := userOf(c, i); ok {
 			r.labels = append(r.labels, "reset:authenticated-user:"+c.Server)
 		} else {
 			r.labels = append(r.labels, "reset:anonymous")
 		}
+		visitorLabels()
 		return
 	}
 
@@ -825,7 +958,7 @@ func runConn(c casePlan, i int, frontAddr string, tg target, r *connResult) {
 	if p.Mode == cmClientFirst {
 		wantClientRead += int64(p.Extra)
 	}
-	rdc := reader(cc, p.DownSeed, p.ReadBuf, idle, nil, &clientGot)
+	rdc := reader(cc, p.downContent(), p.ReadBuf, idle, nil, &clientGot)
 	var crd readDone
 	gotCRD := false
 	waitCRD := func() {
@@ -835,10 +968,10 @@ func runConn(c casePlan, i int, frontAddr string, tg target, r *connResult) {
 	}
 	var werr error
 	var firstWriteAt time.Time
-	if p.FirstAt != faHandshake {
+	if !carried {
 		time.Sleep(time.Until(tReady.Add(firstDelay(c, p.FirstAt))))
 		firstWriteAt = time.Now()
-		werr = writeChunks(cc, p.UpSeed, &upOff, []int{p.FirstLen}, idle)
+		werr = writeFirst(cc, p, &upOff, idle)
 	} else {
 		firstWriteAt = tReady
 	}
@@ -846,7 +979,7 @@ func runConn(c casePlan, i int, frontAddr string, tg target, r *connResult) {
 		if p.RestAt != raBehind && len(p.UpRest) > 0 {
 			time.Sleep(time.Until(tReady.Add(restDelay(c, p.RestAt)))) // idle-open until the wait deadline has long passed
 		}
-		werr = writeChunks(cc, p.UpSeed, &upOff, p.UpRest, idle)
+		werr = writeChunks(cc, p.upContent(), &upOff, p.UpRest, idle)
 	}
 	if werr == nil {
 		switch p.Mode {
@@ -856,7 +989,7 @@ func runConn(c casePlan, i int, frontAddr string, tg target, r *connResult) {
 			waitCRD()
 			if crd.err == nil && crd.mismatch == "" && crd.n == wantClientRead {
 				// the downlink ended cleanly: the opposite direction must still flow
-				werr = writeChunks(cc, p.UpSeed, &upOff, []int{p.Extra}, idle)
+				werr = writeChunks(cc, p.upContent(), &upOff, []int{p.Extra}, idle)
 			}
 			if werr == nil {
 				werr = cc.CloseWrite()
@@ -976,4 +1109,21 @@ func runConn(c casePlan, i int, frontAddr string, tg target, r *connResult) {
 	if p.FirstLen > c.bufSize() {
 		r.labels = append(r.labels, "first-exceeds-wait-buffer")
 	}
+	visitorLabels()
+}
+
+// userOf: the user the statistics must charge connection i to (ok = false: anonymous).
+// A visitor that fell back was never authenticated.
+func userOf(c casePlan, i int) (string, bool) {
+	if c.Auth && hasUsers(c.Server) && !c.isVisitor(i) {
+		return userName(i), true
+	}
+	return "", false
+}
+
+func errDesc(p connPlan) string {
+	if p.Target != tkFakeErrno {
+		return ""
+	}
+	return "[" + p.Errno + " as " + p.ErrWrap + "]"
 }
